@@ -504,8 +504,22 @@ func init() {
 						}
 					}
 				}
+				if len(hits) == 2 {
+					// `override.K > <const> && override.K != <const>`: the shape of the complexity loader above
+					var neq, gt string
+					for _, h := range hits {
+						if rhs, ok := r.num(svc, h.rhs, "Z", 0); ok && h.op == token.NEQ {
+							neq = rhs
+						} else if ok && h.op == token.GTR {
+							gt = rhs
+						}
+					}
+					if neq != "" && gt != "" {
+						s = fmt.Sprintf("negb (Z.eqb a %s) && Z.gtb a %s", neq, gt)
+					}
+				}
 				if s == "false" {
-					fail("gen_config: single comparison on override.%s not found in %s.MergeConfig", k, ld.recv)
+					fail("gen_config: comparison(s) on override.%s not found in %s.MergeConfig", k, ld.recv)
 				}
 				fmt.Fprintf(&b, "Definition svc_%s_merge_%s_given (a : Z) : bool := %s.\n", ld.pfx, k, s)
 			}
